@@ -224,6 +224,12 @@ def judge_field(ctx, rec, res, fam, name):
             return expect_val(res, rec, ("t", {"lt": a[0] < a[1], "gt": a[0] > a[1], "le": a[0] <= a[1], "ge": a[0] >= a[1]}[name]))
         if name == "max":
             return expect_val(res, rec, (ty, max(a[0], a[1])))
+        if name == "min":
+            return expect_val(res, rec, (ty, min(a[0], a[1])))
+        if name == "clamp":
+            if a[1] > a[2]:
+                return SKIP          # Ord::clamp panics by contract when min > max
+            return expect_val(res, rec, (ty, min(max(a[0], a[1]), a[2])))
         if name == "from_repr":
             if a[0] < mod:
                 return expect_val(res, rec, (ty, a[0]))
@@ -275,7 +281,14 @@ def judge_field(ctx, rec, res, fam, name):
             ka, kb = F.f2_cmp_key(a[0]), F.f2_cmp_key(a[1])
             return expect_val(res, rec, ("t", {"lt": ka < kb, "gt": ka > kb, "le": ka <= kb, "ge": ka >= kb}[name]))
         if name == "max":
-            return expect_val(res, rec, (ty, a[0] if F.f2_cmp_key(a[0]) >= F.f2_cmp_key(a[1]) else a[1]))
+            return expect_val(res, rec, (ty, a[0] if F.f2_cmp_key(a[0]) > F.f2_cmp_key(a[1]) else a[1]))
+        if name == "min":
+            return expect_val(res, rec, (ty, a[0] if F.f2_cmp_key(a[0]) <= F.f2_cmp_key(a[1]) else a[1]))
+        if name == "clamp":
+            k0, k1, k2 = F.f2_cmp_key(a[0]), F.f2_cmp_key(a[1]), F.f2_cmp_key(a[2])
+            if k1 > k2:
+                return SKIP
+            return expect_val(res, rec, (ty, a[1] if k0 < k1 else a[2] if k0 > k2 else a[0]))
         if name == "legendre":
             return expect_val(res, rec, ("n", F.f2_legendre(a[0])))
         if name == "sqrt":
